@@ -1,7 +1,7 @@
 /* x86-64 single-instruction stepper for property C07 (DESIGN.md section 4, C07 "Engine").
  *
- * Reads a batch of cases from stdin, executes each one natively and writes one result record per
- * case to stdout.  One case = the bytes of one machine instruction + a complete register file
+ * Server loop: reads a batch of cases from stdin, executes each one natively and writes one result
+ * record per case to stdout, then waits for the next batch (EOF ends it).  One case = the bytes of one machine instruction + a complete register file
  * (16 GPRs, rflags, xmm0-15) + the seed of the scratch arena contents.
  *
  *   input  : "C07I" u32 ncases, then ncases * struct in_rec
@@ -53,9 +53,11 @@ struct in_rec {
 
 struct out_rec {
     uint32_t status; /* 0 = executed, else the signal number */
+    uint32_t changed; /* bit i: gpr[i] differs from the input; bit 16+i: low 64 bits of xmm[i] differ */
     uint32_t nchanged; /* arena bytes that differ from the initial fill */
     uint32_t first_changed; /* offset of the first / last changed arena byte (valid if nchanged) */
     uint32_t last_changed;
+    uint32_t pad;
     uint64_t arena_hash; /* hash of the whole arena after execution */
     uint64_t fault_addr;
     struct state st;
@@ -207,16 +209,19 @@ int main(void) {
     int sigs[] = {SIGSEGV, SIGILL, SIGFPE, SIGBUS, SIGTRAP};
     for (unsigned i = 0; i < sizeof sigs / sizeof sigs[0]; i++)
         if (sigaction(sigs[i], &sa, NULL)) return 3;
-    alarm(120); /* runaway guard: the whole batch is lost, the caller treats that as a harness problem */
-
-    char magic[4];
-    uint32_t n;
-    if (read_all(0, magic, 4) || memcmp(magic, "C07I", 4) || read_all(0, &n, 4)) return 4;
     /* streamed in blocks of BLK records through two small static buffers (fresh pages are
        expensive on the build machine) */
     enum { BLK = 64 };
     static struct in_rec in[BLK];
     static struct out_rec out[BLK];
+
+    for (;;) { /* one request per iteration; EOF on stdin ends the server */
+    char magic[4];
+    uint32_t n;
+    ssize_t r0 = read(0, magic, 1);
+    if (r0 == 0) return 0;
+    if (r0 != 1 || read_all(0, magic + 1, 3) || memcmp(magic, "C07I", 4) || read_all(0, &n, 4)) return 4;
+    alarm(120); /* runaway guard: the process dies, the caller restarts it and bisects the batch */
     if (write_all(1, "C07O", 4) || write_all(1, &n, 4)) return 5;
 
     for (uint32_t base = 0; base < n; base += BLK) {
@@ -257,9 +262,16 @@ int main(void) {
         }
         o->st = g_out;
         o->st.rflags &= 0x8D5UL;
+        uint32_t ch = 0;
+        for (unsigned k = 0; k < 16; k++) {
+            if (g_out.gpr[k] != c->st.gpr[k]) ch |= 1u << k;
+            if (memcmp(g_out.xmm[k], c->st.xmm[k], 8)) ch |= 1u << (16 + k);
+        }
+        o->changed = ch;
         scan_arena(c->arena_seed, o);
     }
     if (write_all(1, out, sizeof(struct out_rec) * (size_t)cnt)) return 5;
     }
-    return 0;
+    alarm(0);
+    }
 }
